@@ -439,6 +439,12 @@ def unit_catalogue(unit):
              ("x[:] = x", lambda sc: sc.x.__setitem__(slice(None), sc.x)), ("x[::-1] = x", lambda sc: sc.x.__setitem__(slice(None, None, -1), sc.x)),
              ("x[x] = False", lambda sc: sc.x.__setitem__(sc.x, False)), ("x[[0, 1]] = x[[1, 0]]", lambda sc: sc.x.__setitem__([0, 1], sc.x[[1, 0]])),
              ("x[0:2] = x[0:2]", lambda sc: sc.x.__setitem__(slice(0, 2), sc.x[0:2])), ("x[mask] = x", lambda sc: sc.x.__setitem__([True] * len(sc.x), sc.x))]
+    if form == "table":
+        # column replacement through every accessor form (plain, indexed name__N, colN_), by list and by vector
+        extra += [("t.x = list", lambda sc: setattr(sc.x, "x", [5, 6, 7])), ("t.x__0 = list", lambda sc: setattr(sc.x, "x__0", [5, 6, 7])),
+                  ("t.s__1 = vector", lambda sc: setattr(sc.x, "s__1", Vector([5, 6, 7]))), ("t.s = vector", lambda sc: setattr(sc.x, "s", Vector([5, 6, 7], name="s"))),
+                  ("t.rename_column", lambda sc: sc.x.rename_column("s", "z")), ("t[:, 0] = list", lambda sc: sc.x.__setitem__((slice(None), 0), list(sc.x._underlying[0]._underlying))),
+                  ("t[0:3, 0:2] = t2", lambda sc: sc.x.__setitem__((slice(0, 3), slice(0, 2)), Table([Vector(list(c._underlying)) for c in sc.x._underlying])))]
     for label, fn, live in list(purity.all_derivations(kind, form, ykind)) + ([(l, f, False) for l, f in extra] if ykind is None else []):
         sc = purity.Scenario(kind, form, ykind)
         case = {"operand": kind, "form": form, "second_operand": ykind, "operation": label}
@@ -459,23 +465,64 @@ def unit_catalogue(unit):
                 agg.violation(V("catalogue." + form + "." + purity._site(label), "spurious-AliasError", case, "performed", "AliasError"))
             continue
         keep = r
+        # rows are read-only views: a write to one fails - and must leave nothing registered behind either
+        for o in objs + (list(r) if isinstance(r, (list, tuple)) else [r]):
+            if purity.is_row(o):
+                for attempt in (lambda: o.__setitem__(0, 1), lambda: o.__setitem__(slice(0, 2), [1, 2]), lambda: o.__setitem__([True] * len(o), 5)):
+                    try:
+                        attempt()
+                    except Exception:
+                        pass
         results = live_vectors(r if isinstance(r, (list, tuple)) else [r])
         vs = live_vectors(objs) + results
         okk = True
         for tgt in vs:
-            if judge_write("catalogue." + form + "." + purity._site(label), dict(case, written="an operand / relative / result column"), tgt, vs) is False:
-                okk = False
+            for _ in (0, 1):      # twice: the first write moves the vector to a recycled identity, the second is judged under that one
+                if judge_write("catalogue." + form + "." + purity._site(label), dict(case, written="an operand / relative / result column"), tgt, vs) is False:
+                    okk = False
+                    break
+            if not okk:
                 break
+        if not okk:
+            continue
+        # every freed storage identity that still has a LIVE registration is handed, on purpose, to a brand-new vector of that length
+        # (the interpreter may reuse the address of freed storage at any time): the new vector shares storage with nobody
+        from serif.alias_tracker import _ALIAS_TRACKER
+        al = valloc.CURRENT
+        al.sweep()
+        for L_, stack in list(al.freeby.items()):
+            for v_ in list(stack):
+                refs = _ALIAS_TRACKER._registry.get(v_)
+                if refs and any(r_() is not None for r_ in refs) and okk:
+                    stack.remove(v_); stack.append(v_)              # next tuple of this length receives exactly this identity
+                    w = Vector([2000 + i for i in range(L_)])
+                    agg.evals += 1; agg.transitions += 1; agg.compared += 1; agg.nontrivial += 1
+                    if al.vid_of(w._underlying) != v_:
+                        agg.skipped["could-not-steer-identity-reuse"] += 1
+                        continue
+                    try:
+                        w[0] = 1
+                        agg.outcomes["write-ok"] += 1
+                    except AliasError:
+                        agg.violation(V("catalogue." + form + "." + purity._site(label), "spurious-AliasError-after-identity-reuse",
+                                        dict(case, written=f"a brand-new vector of length {L_} that received the identity of freed storage"), "written", "AliasError"))
+                        okk = False
+                    except Exception:
+                        pass
         if not okk:
             continue
         # brand-new vectors of the lengths in play: with recycled identities they receive the identities of whatever the operation freed
         fresh = []
         for n in sorted({len(o._underlying) for o in vs if len(o._underlying)} | {1, 2, 3}):
-            for rep in range(4):
+            for rep in range(6):
                 w = Vector([1000 + rep + i for i in range(n)])
                 fresh.append(w)
-                if judge_write("catalogue." + form + "." + purity._site(label), dict(case, written=f"a brand-new vector of length {n} created afterwards"), w, vs + fresh) is False:
-                    okk = False
+                # written twice: the first write moves w to yet another recycled identity, the second is checked under that one
+                for _ in (0, 1):
+                    if judge_write("catalogue." + form + "." + purity._site(label), dict(case, written=f"a brand-new vector of length {n} created afterwards"), w, vs + fresh) is False:
+                        okk = False
+                        break
+                if not okk:
                     break
             if not okk:
                 break
